@@ -1,8 +1,9 @@
 (* C08 -- the encoded generator request is decodable and says what the AST says.
-   Statements only; proofs in Request/SchemaProofs.v and Request/RequestProofs.v.
+   Statements only; proofs in Request/SchemaProofs.v, Request/RequestProofs.v and Request/ConvertProofs.v
+   (models: Request/Schema.v, Request/Request.v, and Request/Convert.v for slice_file_converter.rs).
    Gen/CompilerSchema.v is regenerated from slice/Compiler/*.slice, Gen/EncoderDesc.v from slicec/src/definition_types.rs and main.rs. *)
 From Coq Require Import List NArith ZArith Bool.
-From SliceV Require Import Base.Bytes Codec.Wire Request.Schema Request.SchemaProofs Gen.CompilerSchema Gen.EncoderDesc Request.Request Request.RequestProofs.
+From SliceV Require Import Base.Bytes Codec.Wire Request.Schema Request.SchemaProofs Gen.CompilerSchema Gen.EncoderDesc Request.Request Request.RequestProofs Request.Convert Request.ConvertProofs Request.ConvertTyped.
 Import ListNotations.
 Open Scope N_scope.
 
@@ -24,3 +25,33 @@ Theorem C08_encoders_follow_schema : encoders_match_schema = true.
 Proof. exact encoders_follow_schema. Qed.
 Theorem C08_schema_fits_fuel : (sty_depth (YSeq ty_SliceFile) <= request_fuel)%nat /\ (sty_depth ty_Arguments <= request_fuel)%nat.
 Proof. exact request_depth_ok. Qed.
+
+(* the converter (model of slice_file_converter.rs, compared with the implementation on every transmitted file): for every compiled
+   file whose type names are not spelled with digits only, the contents it produces pass the well-foundedness check that is also
+   run on every decoded request: every numeric type id names an anonymous-type symbol at an earlier position of the same file *)
+Theorem C08_converted_ids_wellfounded : forall f, Forall wf_def (cfl_defs f) -> file_ids_wellfounded (conv_file f) = true.
+Proof. exact converted_file_ids_wellfounded. Qed.
+(* and the definitions are transmitted in source order, each right after the anonymous types it needs: setting the anonymous-type
+   symbols aside, the symbols carry the names of the file's definitions in order *)
+Theorem C08_converted_definitions_in_order : forall f, Forall wf_def (cfl_defs f) ->
+  map symbol_name (filter (fun v => negb (is_anonymous v)) (conv_defs (cfl_defs f))) = map (fun d => Some (def_name d)) (cfl_defs f).
+Proof. exact converted_definitions_in_order. Qed.
+(* what the converter produces is a SliceFile of the schema (regenerated from slice/Compiler/*.slice on every run) whenever the file's
+   strings are valid UTF-8 below 2^62 bytes, its tags and discriminants fit 32 bits, basic enumerator magnitudes fit 64 bits and there
+   are fewer than 2^61 symbols; hence its encoding exists and decodes back to exactly that value, consuming exactly its bytes *)
+Theorem C08_converted_file_typed : forall f, ok_file f -> room (conv_defs (cfl_defs f)) -> has_sty ty_SliceFile (conv_file f).
+Proof. exact converted_file_typed. Qed.
+Theorem C08_converted_file_roundtrip : forall f rest, ok_file f -> room (conv_defs (cfl_defs f)) ->
+  exists bs, enc_sval request_fuel ty_SliceFile (conv_file f) = Some bs /\ bs <> [] /\ dec_sval request_fuel ty_SliceFile (bs ++ rest) = DOk (conv_file f) rest.
+Proof. exact converted_file_roundtrip. Qed.
+(* positions are spelled in decimal and read back as the same number *)
+Theorem C08_position_spelling : forall n, numeric_id (decimal n) = Some n.
+Proof. exact numeric_decimal. Qed.
+(* non-vacuity: a struct with a field of type Dictionary<string, Sequence<S>?> becomes three symbols: the sequence (0), the
+   dictionary (1) referring to 0, the struct referring to 1 *)
+Example C08_converter_instance :
+  let s := [83] in let f := mkcfield [102] [] None None (CRef (GDict (CRef (GPrim [115]) false []) (CRef (GSeq (CRef (GNamed [77; 58; 58; 83]) false [])) true [])) false []) in
+  let file := mkcfile [97] [77] [] [] [CStruct s [] None false [f]] in
+  wf_def (CStruct s [] None false [f]) /\ length (conv_defs (cfl_defs file)) = 3%nat /\
+  map is_anonymous (conv_defs (cfl_defs file)) = [true; true; false] /\ file_ids_wellfounded (conv_file file) = true.
+Proof. cbv zeta. split; [constructor; [split; reflexivity|constructor]|vm_compute; repeat split]. Qed.
